@@ -40,6 +40,22 @@ static std::map<int, std::vector<int>> kid_ids;   // composite id -> child ids
 static std::vector<bool> is_func, is_asm;         // by id
 static int root_fins = 0;                         // finish callbacks of the root since its last reset (free mode)
 static int last_root_ctl = -1;                    // last control call made on the root in the current op (free mode), -1 none
+// "a reset tree behaves like a freshly built one", evaluated on the real code (round 10): `mark` records the end state of a
+// control-free run of the freshly built tree (state/result of every node, calls of every function leaf, finish notifications
+// of the root); `cmpfresh` compares the end state of the current run with it when that run began with reset() + start() on
+// the root (from outside or from inside any call-out) and nothing but loop passes and clock steps happened since
+static std::vector<int> fn_calls;                 // by id: body invocations since the last reset of the root
+static std::vector<std::pair<int,int>> root_fin_log;   // (succ, reason code) of the root's finish notifications since its last reset
+static int restart_state = 0;                     // 0 none, 1 root just reset, 2 root reset and started again, nothing else since
+static int fresh_state = 0;                       // 0 freshly built, untouched; 1 started once by start(), nothing else since; 2 anything else
+static std::string mark_str; static bool has_mark = false;
+static void note_root_ctl(int kind) {
+    fresh_state = (fresh_state == 0 && kind == 0) ? 1 : 2;
+    if (kind == 4) { std::fill(fn_calls.begin(), fn_calls.end(), 0); root_fin_log.clear(); restart_state = 1; }
+    else if (kind == 0 && restart_state == 1) restart_state = 2;
+    else restart_state = 0;
+}
+static void count_fn(int id) { if (id >= 0 && (size_t)id < fn_calls.size()) ++fn_calls[(size_t)id]; }
 
 // free mode (after an `icb` op): call-outs of inner nodes make control calls; the model does not predict such
 // runs, the harness checks the clauses that need no prediction and prints `P VIOLATION …`; events go to `B` lines
@@ -102,14 +118,14 @@ struct Parser {
             if (c.size() == 2) {
                 uint64_t t; if (!vh::to_u64(c[1], t) || t > 20) return nullptr;
                 FunctionAction::FuncWithReason f = [id, succ, t](Action::Reason &r) {
-                    ev("fn " + std::to_string(id));
+                    ev("fn " + std::to_string(id)); count_fn(id);
                     run_iscript(scr_body, id);
                     r = Action::Reason(100 + (int)t, "case:" + std::to_string(t));
                     return succ;
                 };
                 a = new FunctionAction(*loop, std::move(f));
             } else {
-                FunctionAction::Func f = [id, succ] { ev("fn " + std::to_string(id)); run_iscript(scr_body, id); return succ; };
+                FunctionAction::Func f = [id, succ] { ev("fn " + std::to_string(id)); count_fn(id); run_iscript(scr_body, id); return succ; };
                 a = new FunctionAction(*loop, std::move(f));
             }
             reg(a, id, tmo, raw); return a;
@@ -242,6 +258,13 @@ static std::string snapshot() {
     for (auto a : nodes) { s += stch(a->state()); s += rsch(a->result()); }
     return s;
 }
+static std::string summary() {
+    std::string s = "s=" + snapshot() + " calls=";
+    for (size_t i = 0; i < fn_calls.size(); ++i) if (i < is_func.size() && is_func[i]) s += std::to_string(i) + ":" + std::to_string(fn_calls[i]) + ",";
+    s += " fin=";
+    for (auto &f : root_fin_log) s += std::to_string(f.first) + "/" + std::to_string(f.second) + ",";
+    return s;
+}
 
 static const char *stch(Action::State s);
 // ---- ActionExecutor part: the executor owns (and deletes) the actions; liveness is tracked by the destructors
@@ -286,7 +309,7 @@ static bool parse_call(const std::string &w, Call &c) {
 }
 
 static bool do_call(const Call &c) {
-    if (c.kind <= 4) last_root_ctl = c.kind;
+    if (c.kind <= 4) { last_root_ctl = c.kind; note_root_ctl(c.kind); }
     switch (c.kind) {
         case 0: return root->start();
         case 1: return root->pause();
@@ -296,6 +319,7 @@ static bool do_call(const Call &c) {
         default: {
             DummyAction *d = dummies[c.n];
             if (!d || d->state() != Action::State::kRunning) return false;     // a leaf completes / blocks only while it runs
+            restart_state = 0; fresh_state = 2;
             if (c.x == 'b') d->emitBlock(Action::Reason()); else d->emitFinish(c.x == 's');
             return true;
         }
@@ -305,7 +329,7 @@ static bool do_call(const Call &c) {
 // ---- free mode: control calls from the call-outs of inner nodes
 static bool do_icall(int target, const ICall &c) {
     Action *a = nodes[target];
-    if (target == 0) last_root_ctl = c.kind;
+    if (target == 0) { last_root_ctl = c.kind; note_root_ctl(c.kind); } else { restart_state = 0; fresh_state = 2; }
     switch (c.kind) {
         case 0: return a->start();
         case 1: return a->pause();
@@ -368,15 +392,29 @@ int main() {
     int efd = eventfd(1, EFD_NONBLOCK);             // counter > 0 and never read: readable in every pass
     auto fdev = loop->newFdEvent("verif-driver");
     fdev->initialize(efd, event::FdEvent::kReadEvent, event::Event::Mode::kPersist);
-    bool pending = false, settle_pending = false; std::string pending_rets;
+    bool pending = false, settle_pending = false, mark_pending = false, cmp_pending = false; std::string pending_rets;
     int settle_wait = 0;        // `settle`: loop passes still to run (without reading an op) before the check
+    bool settle_adv = false;    // `mark` / `cmpfresh`: each of those passes moves the clock by 6 s first (= op `adv 60`)
     fdev->setCallback([&](short) {
-        if (settle_wait > 0) { --settle_wait; return; }
+        if (settle_wait > 0) { if (settle_adv) vt::advance_ms(6000); --settle_wait; return; }
+        settle_adv = false;
         if (pending) {
             if (xexec) std::cout << "P x r=" << pending_rets << " cur=" << xexec->current() << " st=" << xsnapshot() << "\n";
-            else if (free_mode) { std::cout << "B r=" << pending_rets << " s=" << snapshot() << "\n"; check_quiescent(); check_last_call(); if (settle_pending) check_settled(); std::cout << "P free\n"; }
-            else std::cout << "P r=" << pending_rets << " s=" << snapshot() << "\n";
-            pending = false; settle_pending = false; last_root_ctl = -1;
+            else if (free_mode) {
+                std::cout << "B r=" << pending_rets << " s=" << snapshot() << "\n"; check_quiescent(); check_last_call(); if (settle_pending) check_settled();
+                if (cmp_pending) {
+                    if (has_mark && restart_state == 2) {
+                        std::string got = summary();
+                        std::cout << "B cmpfresh compared\n";
+                        if (got != mark_str) violation("the run restarted by reset() + start() differs from the run of the freshly built tree: got " + got + " want " + mark_str);
+                    } else std::cout << "B cmpfresh skipped\n";
+                }
+                std::cout << "P free\n"; }
+            else {
+                std::cout << "P r=" << pending_rets << " s=" << snapshot() << "\n";
+                if (mark_pending) { has_mark = fresh_state == 1; mark_str = has_mark ? summary() : ""; }
+            }
+            pending = false; settle_pending = false; mark_pending = false; cmp_pending = false; last_root_ctl = -1;
         }
         // a malformed op line is answered with `bad-op` and does not take a loop pass (the model does not step either):
         // the next line is read at once
@@ -440,6 +478,7 @@ int main() {
             root = t; nodes = ps.made; dummies = ps.dums;
             scr_final.clear(); scr_fin.clear(); scr_blk.clear();
             free_mode = false; scr_body.clear(); scr_ifinal.clear(); root_fins = 0;
+            fn_calls.assign(nodes.size(), 0); root_fin_log.clear(); restart_state = 0; fresh_state = 0; has_mark = false; mark_str.clear();
             kid_ids.clear(); is_func.assign(nodes.size(), false); is_asm.assign(nodes.size(), false);
             {
                 std::map<Action*, int> idx;
@@ -449,6 +488,7 @@ int main() {
             }
             root->setFinishCallback([](bool s, const Action::Reason &why, const Action::Trace &) {
                 ev("fin " + std::to_string(s ? 1 : 0) + " " + std::to_string(why.code));
+                root_fin_log.push_back(std::make_pair(s ? 1 : 0, why.code));
                 if (free_mode) {
                     if (root->state() != Action::State::kFinished) violation(std::string("finish notification while the root is ") + stch(root->state()));
                     if (++root_fins > 1) violation("finish notification delivered twice in one run");
@@ -486,6 +526,12 @@ int main() {
             (w[1] == "body" ? scr_body : scr_ifinal)[(int)n].push_back(std::make_pair((int)tg, cs));
             free_mode = true;
             pending_rets = "-"; pending = true;
+        } else if (w[0] == "mark" && w.size() == 1 && !free_mode) {
+            // = `pass` followed by 8n+40 times `adv 60` (everything that can end has ended); then the end state of the run is
+            // recorded if it is the control-free run of the freshly built tree (one start(), nothing else)
+            pending_rets = "-"; pending = true; mark_pending = true; settle_wait = 8 * (int)nodes.size() + 40; settle_adv = true;
+        } else if (w[0] == "cmpfresh" && w.size() == 1 && free_mode) {
+            pending_rets = "-"; pending = true; settle_pending = true; cmp_pending = true; settle_wait = 8 * (int)nodes.size() + 40; settle_adv = true;
         } else if (w[0] == "settle" && w.size() == 1 && free_mode) {
             // every level of the tree needs one pass to hand its notification up: let the queue drain first
             pending_rets = "-"; pending = true; settle_pending = true; settle_wait = 2 * (int)nodes.size() + 4;
